@@ -143,7 +143,49 @@ def _mirror(src):
     return '\n'.join(out), k
 
 
-TRANSFORMS = {'mirrored': (_mirror, 'comparisons written the other way round (`a < b` -> `b > a`)'),
+_IFHEAD = re.compile(r'^(?P<ind>\s*)if \((?P<c>.*)\) \{\s*$')
+
+
+def _invert(src):
+    """`if (c) { A } else { B }` -> `if (!(c)) { B } else { A }` for plain if/else statements (no else-if chains, no
+    declarations in the condition)."""
+    lines = src.split('\n')
+    out, i, k = [], 0, 0
+    while i < len(lines):
+        m = _IFHEAD.match(lines[i])
+        if m and ';' not in m.group('c') and m.group('c').count('(') == m.group('c').count(')') and not re.search(r'\b(const|auto)\b', m.group('c')) \
+                and not (out and re.match(r'\s*(\}\s*)?else\s*$', out[-1])) and not lines[i].lstrip().startswith('} else'):
+            ind = m.group('ind')
+            j = i + 1
+            while j < len(lines) and not (lines[j].startswith(ind) and lines[j][len(ind):len(ind) + 1] == '}'):
+                if lines[j].strip() and not lines[j].startswith(ind + ' ') and not lines[j].startswith('#'):
+                    break
+                j += 1
+            if j < len(lines) and lines[j] == ind + '} else {':
+                e = j + 1
+                while e < len(lines) and not (lines[e].startswith(ind) and lines[e][len(ind):len(ind) + 1] == '}'):
+                    if lines[e].strip() and not lines[e].startswith(ind + ' ') and not lines[e].startswith('#'):
+                        break
+                    e += 1
+                if e < len(lines) and lines[e] == ind + '}':
+                    then_body, else_body = lines[i + 1:j], lines[j + 1:e]
+                    body_txt = '\n'.join(then_body + else_body)
+                    if '#if' not in body_txt and '#else' not in body_txt and '#endif' not in body_txt:
+                        out.append('%sif (!(%s)) {' % (ind, m.group('c')))
+                        out += else_body
+                        out.append(ind + '} else {')
+                        out += then_body
+                        out.append(ind + '}')
+                        i = e + 1
+                        k += 1
+                        continue
+        out.append(lines[i])
+        i += 1
+    return '\n'.join(out), k
+
+
+TRANSFORMS = {'inverted': (_invert, 'if/else statements with the condition negated and the branches swapped'),
+              'mirrored': (_mirror, 'comparisons written the other way round (`a < b` -> `b > a`)'),
               'noop': (_noop, 'no-op statements `(void)0;` inserted at the top of blocks'),
               'unbraced': (_unbrace, 'single-statement if/for/while blocks with their braces dropped')}
 
